@@ -76,7 +76,7 @@ Proof.
   { eexists. split; [reflexivity|]. cbn. auto 10. }
   destruct (parse_modified_hdrs parse_date (e_etag ent) req (e_lm ent)) as [msg|pf nm].
   { eexists. split; [reflexivity|]. cbn. auto 10. }
-  match goal with |- context [let '(_, _) := ?g in _] => destruct g as [range_hdr include] end.
+  destruct (if_range_gate (e_etag ent) req) as [range_hdr include].
   destruct pf. { eexists. split; [reflexivity|]. cbn. auto 10. }
   destruct nm. { eexists. split; [reflexivity|]. cbn. auto 10. }
   destruct (range_parse range_hdr (e_len ent)) as [| |l] eqn:ER.
@@ -123,65 +123,82 @@ Definition h0_of (now : N) (ent : entity) : list (bytes * bytes) :=
 
 Definition content_range_value (a e L : N) : bytes := bs "bytes " ++ dec a ++ [45] ++ dec (e - 1) ++ [47] ++ dec L.
 
+Definition is_get_or_head (req : request) : Prop := r_meth req = GET \/ r_meth req = HEAD.
+Notation conds ent req := (parse_modified_hdrs parse_date (e_etag ent) req (e_lm ent)).
+Notation gated ent req := (range_parse (fst (if_range_gate (e_etag ent) req)) (e_len ent)).
+Notation include_of ent req := (snd (if_range_gate (e_etag ent) req)).
+
+(* Every response of serve, with the decisions that lead to it. *)
 Inductive shape (now : N) (ent : entity) (req : request) : resp -> Prop :=
-| Sh405 : shape now ent req {| status := 405; hdrs := [(H_ALLOW, bs "get, head")]; rplan := PlOnce (Some BODY_405) |}
-| Sh400 s : shape now ent req {| status := 400; hdrs := []; rplan := PlOnce (Some s) |}
-| Sh412 : shape now ent req {| status := 412; hdrs := h0_of now ent; rplan := PlOnce (Some BODY_412) |}
-| Sh304 : shape now ent req {| status := 304; hdrs := h0_of now ent; rplan := PlOnce None |}
-| Sh416 : shape now ent req {| status := 416; hdrs := h0_of now ent ++ [(H_CONTENT_RANGE, bs "bytes */" ++ dec (e_len ent))];
+| Sh405 : ~ is_get_or_head req ->
+    shape now ent req {| status := 405; hdrs := [(H_ALLOW, bs "get, head")]; rplan := PlOnce (Some BODY_405) |}
+| Sh400 s : is_get_or_head req -> conds ent req = CErr s ->
+    shape now ent req {| status := 400; hdrs := []; rplan := PlOnce (Some s) |}
+| Sh412 nm : is_get_or_head req -> conds ent req = COk true nm ->
+    shape now ent req {| status := 412; hdrs := h0_of now ent; rplan := PlOnce (Some BODY_412) |}
+| Sh304 : is_get_or_head req -> conds ent req = COk false true ->
+    shape now ent req {| status := 304; hdrs := h0_of now ent; rplan := PlOnce None |}
+| Sh416 : is_get_or_head req -> conds ent req = COk false false -> gated ent req = RNotSat ->
+    shape now ent req {| status := 416; hdrs := h0_of now ent ++ [(H_CONTENT_RANGE, bs "bytes */" ++ dec (e_len ent))];
                                 rplan := PlOnce None |}
-| Sh200 : shape now ent req {| status := 200;
+| Sh200 : is_get_or_head req -> conds ent req = COk false false ->
+    (gated ent req = RNone \/ exists rs, gated ent req = RSat rs /\ (2 <= length rs)%nat /\ e_len ent <= est_sum rs) ->
+    shape now ent req {| status := 200;
                                 hdrs := (h0_of now ent ++ [(H_CONTENT_LENGTH, dec (e_len ent))]) ++ e_hdrs ent;
                                 rplan := if beq_bytes (r_meth req) HEAD then PlOnce None else PlExact 0 (e_len ent) |}
-| Sh206 a e (include : bool) : a < e -> e <= e_len ent ->
-    (include = false -> r_if_range req <> None) ->
+| Sh206 a e : is_get_or_head req -> conds ent req = COk false false -> gated ent req = RSat [(a, e)] ->
+    a < e -> e <= e_len ent ->
     shape now ent req {| status := 206;
                          hdrs := let h := (h0_of now ent ++ [(H_CONTENT_RANGE, content_range_value a e (e_len ent))])
                                           ++ [(H_CONTENT_LENGTH, dec (e - a))] in
-                                 if include then h ++ e_hdrs ent else h;
+                                 if include_of ent req then h ++ e_hdrs ent else h;
                          rplan := if beq_bytes (r_meth req) HEAD then PlOnce None else PlExact a e |}
-| ShMulti rs (include : bool) total : ranges_wf (e_len ent) rs -> (2 <= length rs)%nat ->
-    (include = false -> r_if_range req <> None) ->
-    let each := if include then each_part_headers (e_hdrs ent) else [] in
+| ShMulti rs total : is_get_or_head req -> conds ent req = COk false false -> gated ent req = RSat rs ->
+    ranges_wf (e_len ent) rs -> (2 <= length rs)%nat ->
+    let each := if include_of ent req then each_part_headers (e_hdrs ent) else [] in
     total = tail_len (map (hdr_of (e_len ent) each) rs) rs + TRAILER_LEN -> total < U64 ->
     est_sum rs < e_len ent ->
     shape now ent req {| status := 206;
                          hdrs := h0_of now ent ++ [(H_CONTENT_LENGTH, dec total); (H_CONTENT_TYPE, V_MULTIPART)];
                          rplan := if beq_bytes (r_meth req) HEAD then PlOnce None
                                   else PlMulti (map (hdr_of (e_len ent) each) rs) rs total |}
-| Sh413 : shape now ent req {| status := 413; hdrs := []; rplan := PlOnce (Some BODY_413) |}.
+| Sh413 rs : is_get_or_head req -> conds ent req = COk false false -> gated ent req = RSat rs ->
+    (2 <= length rs)%nat -> est_sum rs < e_len ent ->
+    (let each := if include_of ent req then each_part_headers (e_hdrs ent) else [] in
+     U64 <= tail_len (map (hdr_of (e_len ent) each) rs) rs + TRAILER_LEN) ->
+    shape now ent req {| status := 413; hdrs := []; rplan := PlOnce (Some BODY_413) |}.
+
+Lemma meth_cases req : negb (beq_bytes (r_meth req) GET) && negb (beq_bytes (r_meth req) HEAD) = false -> is_get_or_head req.
+Proof.
+  intros H. apply andb_false_iff in H. destruct H as [H|H]; apply negb_false_iff, beq_bytes_spec in H; [left|right]; exact H.
+Qed.
+Lemma meth_cases_not req : negb (beq_bytes (r_meth req) GET) && negb (beq_bytes (r_meth req) HEAD) = true -> ~ is_get_or_head req.
+Proof.
+  intros H [E|E]; rewrite E in H; cbn in H; discriminate.
+Qed.
 
 Theorem serve_shape now ent req r : e_len ent < U64 -> serve now ent req = Ok r -> shape now ent req r.
 Proof.
   intros HL. unfold serve_model. fold (h0_of now ent).
-  destruct (negb (beq_bytes (r_meth req) GET) && negb (beq_bytes (r_meth req) HEAD)).
-  { intros HH; inversion HH; subst. constructor. }
-  destruct (parse_modified_hdrs parse_date (e_etag ent) req (e_lm ent)) as [msg|pf nm].
-  { intros HH; inversion HH; subst. constructor. }
-  assert (Hgate : forall rh inc,
-            match r_if_range req with
-            | Some ifr =>
-                if starts_with W_SLASH_Q ifr || starts_with DQ ifr
-                then match e_etag ent with
-                     | Some e => if strong_eq ifr e then (r_range req, false) else (None, true)
-                     | None => (None, true)
-                     end
-                else (None, true)
-            | None => (r_range req, true)
-            end = (rh, inc) -> inc = false -> r_if_range req <> None).
-  { intros rh inc. destruct (r_if_range req) as [ifr|]; [congruence|]. intros E1 E2. inversion E1; subst. discriminate. }
-  match goal with |- context [let '(_, _) := ?g in _] => destruct g as [range_hdr include] eqn:EG end.
-  specialize (Hgate _ _ eq_refl).
-  destruct pf. { intros HH; inversion HH; subst. constructor. }
-  destruct nm. { intros HH; inversion HH; subst. constructor. }
-  destruct (range_parse range_hdr (e_len ent)) as [| |l] eqn:ER.
-  - rewrite u64_sub_ok by lia. cbn [bind]. rewrite N.sub_0_r. intros HH; inversion HH; subst. constructor.
-  - intros HH; inversion HH; subst. constructor.
+  destruct (negb (beq_bytes (r_meth req) GET) && negb (beq_bytes (r_meth req) HEAD)) eqn:EM.
+  { intros HH; inversion HH; subst. constructor. now apply meth_cases_not. }
+  apply meth_cases in EM.
+  destruct (parse_modified_hdrs parse_date (e_etag ent) req (e_lm ent)) as [msg|pf nm] eqn:EC.
+  { intros HH; inversion HH; subst. now constructor. }
+  destruct (if_range_gate (e_etag ent) req) as [range_hdr include] eqn:EG.
+  assert (E1 : range_hdr = fst (if_range_gate (e_etag ent) req)) by now rewrite EG.
+  assert (E2 : include = snd (if_range_gate (e_etag ent) req)) by now rewrite EG.
+  clear EG. subst range_hdr include.
+  destruct pf. { intros HH; inversion HH; subst. econstructor; eauto. }
+  destruct nm. { intros HH; inversion HH; subst. now constructor. }
+  destruct (range_parse (fst (if_range_gate (e_etag ent) req)) (e_len ent)) as [| |l] eqn:ER.
+  - rewrite u64_sub_ok by lia. cbn [bind]. rewrite N.sub_0_r. intros HH; inversion HH; subst. constructor; auto.
+  - intros HH; inversion HH; subst. constructor; auto.
   - destruct (range_parse_sat_wf _ _ _ ER) as [Hne Hw].
     destruct l as [|[a e] [|p2 l2]]; [congruence| |].
     + inversion Hw as [|? ? [H1 H2] _]; subst. cbn [fst snd] in *.
       rewrite !u64_sub_ok by lia. cbn [bind]. intros HH; inversion HH; subst.
-      apply (Sh206 now ent req a e include); assumption.
+      apply (Sh206 now ent req a e); assumption.
     + rewrite (est_len_value _ _ Hw 0) by (cbv; reflexivity). cbn [bind]. rewrite N.add_0_l.
       destruct (N.ltb_spec (est_sum ((a, e) :: p2 :: l2)) U64) as [He|He].
       * destruct (N.ltb_spec (est_sum ((a, e) :: p2 :: l2)) (e_len ent)) as [Hlt|Hge].
@@ -189,10 +206,12 @@ Proof.
            rewrite N.add_0_l. cbn [rev app].
            match goal with |- context [?x <? U64] => destruct (N.ltb_spec x U64) as [Hlt2|Hge2] end.
            ++ intros HH; inversion HH; subst.
-              apply (ShMulti now ent req ((a, e) :: p2 :: l2) include); auto. cbn [length]. lia.
-           ++ intros HH; inversion HH; subst. constructor.
-        -- rewrite u64_sub_ok by lia. cbn [bind]. rewrite N.sub_0_r. intros HH; inversion HH; subst. constructor.
-      * rewrite u64_sub_ok by lia. cbn [bind]. rewrite N.sub_0_r. intros HH; inversion HH; subst. constructor.
+              apply (ShMulti now ent req ((a, e) :: p2 :: l2)); cbn [length]; auto; lia.
+           ++ intros HH; inversion HH; subst. apply (Sh413 now ent req ((a, e) :: p2 :: l2)); cbn [length]; auto; lia.
+        -- rewrite u64_sub_ok by lia. cbn [bind]. rewrite N.sub_0_r. intros HH; inversion HH; subst.
+           constructor; auto. right. eexists. split; [exact ER|]. split; [cbn [length]; lia|exact Hge].
+      * rewrite u64_sub_ok by lia. cbn [bind]. rewrite N.sub_0_r. intros HH; inversion HH; subst.
+        constructor; auto. right. eexists. split; [exact ER|]. split; [cbn [length]; lia|lia].
 Qed.
 
 End WithDates.
